@@ -647,16 +647,18 @@ pub fn rekey(
 ) -> Result<(), Error> {
     for r in rights {
         if msk.secrets.contains_key(&r) {
-            let is_hybridized = msk
+            let (is_activated, is_hybridized) = msk
                 .secrets
                 .get_latest(&r)
-                .map(|(_, k)| k.is_hybridized())
+                .map(|(is_activated, k)| (*is_activated, k.is_hybridized()))
                 .ok_or_else(|| {
                     Error::OperationNotPermitted(format!("no current key for coordinate {r:#?}"))
                 })?;
 
-            msk.secrets
-                .insert(r, (true, RightSecretKey::random(rng, is_hybridized)?));
+            msk.secrets.insert(
+                r,
+                (is_activated, RightSecretKey::random(rng, is_hybridized)?),
+            );
         } else {
             return Err(Error::OperationNotPermitted(
                 "cannot re-key a right not belonging to the MSK".to_string(),
